@@ -439,3 +439,12 @@ Print Assumptions C12_hash_in_quoted.
 Theorem C12_report_sorted : forall A (l : list (c12_str * A)), Sorted c12_key_le (c12_sort l).
 Proof. exact c12_sort_sorted. Qed.
 Print Assumptions C12_report_sorted.
+
+(* a SUBTREE as receiver of a parser (`ParameterTree& s = pt.sub(p); readINITree(in, s)`): the node at p afterwards
+   is what the parser made of the node sub(p) returned, with the parser's status *)
+Theorem C12_subtree_as_receiver : forall S p t (f : c12_tree -> c12_tree * S) err,
+  snd (c12_sub_mut t p) = true ->
+  c12_node (fst (c12_in_sub t p f err)) p = fst (f (c12_node (fst (c12_sub_mut t p)) p)) /\
+  snd (c12_in_sub t p f err) = snd (f (c12_node (fst (c12_sub_mut t p)) p)).
+Proof. exact c12_in_sub_node. Qed.
+Print Assumptions C12_subtree_as_receiver.
